@@ -22,7 +22,17 @@ pub fn gens() -> Vec<Gen> {
 }
 
 pub fn credential(k: usize) -> Cfg {
-    if (k / 3) % 2 == 1 {
+    if (k / 3) % 3 == 2 {
+        // null / false / 0 / "" / [] / {} as hidden array elements and hidden member values
+        let claims = json!({"iss": "https://issuer.example/i", "exp": FAR_EXP, "vis": "v", "ms": [12, null, false, 0, "", [], {}], "o": {"n": null, "z": 0}});
+        let strategy = match k % 3 {
+            0 => Strategy::AllLevels,
+            1 => Strategy::Custom(vec!["$.ms[1]".into(), "$.ms[2]".into(), "$.ms[3]".into(), "$.ms[4]".into(), "$.ms[5]".into(), "$.ms[6]".into(), "$.o.n".into()]),
+            _ => Strategy::TopLevel,
+        };
+        return Cfg::simple(claims, strategy).variant(k);
+    }
+    if (k / 3) % 3 == 1 {
         // arrays directly inside arrays, hidden on both levels
         let claims = json!({"iss": "https://issuer.example/i", "exp": FAR_EXP, "vis": "v", "m": [["LIS", "MAD"], ["OSL"]]});
         let strategy = match k % 3 {
@@ -84,7 +94,7 @@ fn garbage_pool() -> Vec<J> {
 /// Cheap first pass: the full genuine list, the empty list, each single disclosure, each
 /// list with one disclosure left out, for every credential.
 fn cases_genuine(_rng: &mut Rng, sink: &mut dyn FnMut(J) -> bool) {
-    for k in 0..12 {
+    for k in 0..18 {
         let n = n_genuine(k);
         let all: Vec<J> = (0..n).map(|i| json!({ "g": i })).collect();
         let mut lists = vec![all.clone(), vec![]];
@@ -156,7 +166,7 @@ fn cases_smuggled(_rng: &mut Rng, sink: &mut dyn FnMut(J) -> bool) {
 }
 
 fn cases_single(_rng: &mut Rng, sink: &mut dyn FnMut(J) -> bool) {
-    for k in 0..6 {
+    for k in 0..9 {
         let n = n_genuine(k);
         let genuine: Vec<J> = (0..n).map(|i| json!({ "g": i })).collect();
         let mut devs: Vec<J> = Vec::new();
@@ -200,7 +210,7 @@ fn cases_single(_rng: &mut Rng, sink: &mut dyn FnMut(J) -> bool) {
 }
 
 fn cases_triples(_rng: &mut Rng, sink: &mut dyn FnMut(J) -> bool) {
-    for k in [0usize, 1, 4] {
+    for k in [0usize, 1, 4, 7] {
         let mut pool: Vec<J> = vec![json!({"g": 0}), json!({"g": 1}), json!({"g": 2}), json!({"g": 3})];
         pool.extend(forged_pool().into_iter().take(7));
         pool.extend(garbage_pool().into_iter().take(4));
@@ -219,7 +229,7 @@ fn cases_triples(_rng: &mut Rng, sink: &mut dyn FnMut(J) -> bool) {
 }
 
 fn cases_subsets(rng: &mut Rng, sink: &mut dyn FnMut(J) -> bool) {
-    for k in 0..6 {
+    for k in 0..9 {
         let n = n_genuine(k);
         for mask in 0u32..(1 << n) {
             let subset: Vec<J> = (0..n).filter(|i| mask >> i & 1 == 1).map(|i| json!({ "g": i })).collect();
@@ -248,7 +258,7 @@ fn cases_random(rng: &mut Rng, sink: &mut dyn FnMut(J) -> bool) {
     let forged = forged_pool();
     let garbage = garbage_pool();
     loop {
-        let k = rng.below(12);
+        let k = rng.below(18);
         let n = n_genuine(k);
         let len = rng.below(8);
         let mut l = Vec::new();
